@@ -32,7 +32,8 @@ theorem get_never_internal (kv : KV) (h : Inv kv) (n : String) : KV.get kv n ≠
 theorem put_first (kv : KV) (n : String) (v : Bytes) (h : kv.secrets[n]? = none) :
     KV.put true kv n v true =
       ({ secrets := kv.secrets.insert n { versions := (∅ : VMap).insert 1 v, active := 1, latest := 1 },
-         gen := kv.gen + 1 }, .ok 1) :=
+         gen := kv.gen + 1,
+         disk := kv.secrets.insert n { versions := (∅ : VMap).insert 1 v, active := 1, latest := 1 } }, .ok 1) :=
   KV.put_first true kv n v h
 
 /-- each later put stores its value under a fresh, strictly larger, never-used number and
@@ -40,7 +41,8 @@ leaves the active version alone -/
 theorem put_fresh (kv : KV) (hinv : Inv kv) (n : String) (v : Bytes) (s : Secret)
     (hs : kv.secrets[n]? = some s) (hd : dedupe true s v = false) :
     KV.put true kv n v true =
-      ({ secrets := kv.secrets.insert n (putNewMutate s v), gen := kv.gen + 1 }, .ok (s.latest + 1))
+      ({ secrets := kv.secrets.insert n (putNewMutate s v), gen := kv.gen + 1,
+         disk := kv.secrets.insert n (putNewMutate s v) }, .ok (s.latest + 1))
     ∧ s.latest + 1 ∉ s.versions ∧ (putNewMutate s v).active = s.active
     ∧ ∀ k, k ∈ s.versions → k < s.latest + 1 :=
   KV.put_fresh kv n v s hs (hinv n s hs) hd
